@@ -146,6 +146,8 @@ def oracle_stream(case, outs):
     body = 0
     fin_seen = False
     closed = False
+    deferred = []         # header blocks received but not decoded yet (QPACK-blocked stream)
+    fin_deferred = False
     for op, out in zip(case, outs):
         t = op.split()
         if t[0] == "h3v.new":
@@ -156,16 +158,26 @@ def oracle_stream(case, outs):
         head = out.partition(" | ")[0]
         carries_fin = t[0] == "h3v.fin" or (t[0] != "h3v.fin" and t[-1] == "1")
         fin_seen = fin_seen or carries_fin
-        # what the peer sent, judged by the rules
-        sent = []
-        if t[0] in ("h3v.hdr", "h3v.hdrdata"):
-            kind = ("resp" if is_client else "req") if n_headers == 0 else "trl"
-            sent.append((kind, parse_headers(t[1])))
-        elif t[0] == "h3v.pp":
-            sent.append(("push", parse_headers(t[1])))
+        # what the peer sent, judged by the rules once it is decoded: a block on a
+        # QPACK-blocked stream is judged when the encoder stream unblocks it
+        if t[0] in ("h3v.hdr", "h3v.hdrdata", "h3v.hdrb"):
+            deferred.append(("hdr", parse_headers(t[1])))
+        elif t[0] in ("h3v.pp", "h3v.ppb"):
+            deferred.append(("pp", parse_headers(t[1])))
         if head.startswith("err"):
             closed = True
             continue
+        still_blocked = " blk=1 " in out
+        sent = []
+        if not still_blocked:
+            k = n_headers
+            for typ_, hs_ in deferred:
+                if typ_ == "pp":
+                    sent.append(("push", hs_))
+                else:
+                    sent.append((("resp" if is_client else "req") if k == 0 else "trl", hs_))
+                    k += 1
+            deferred = []
         # no error: every header block sent in this op must have been acceptable
         for kind, hs in sent:
             why = well_formed(kind, hs)
@@ -207,9 +219,13 @@ def oracle_stream(case, outs):
                                      {"oracle": "content-length", "rule": rule}))
         # "when a stream ends": the step that carries the FIN either closes the
         # connection or reports the end of the stream
-        if carries_fin and not any(m.group(2).endswith("end=1") for m in EV_RE.finditer(head[3:])):
+        if still_blocked:
+            fin_deferred = fin_deferred or carries_fin
+            continue
+        if (carries_fin or fin_deferred) and not any(m.group(2).endswith("end=1") for m in EV_RE.finditer(head[3:])):
             problems.append((f"FIN received, connection not closed, no event with stream_ended=True ({op!r} -> {out!r})",
                              {"oracle": "stream-end", "rule": "fin-unreported"}))
+        fin_deferred = False
         # the stream has ended (FIN seen), the connection is still open
         if fin_seen and first is not None:
             decl = declared_lengths(first)
@@ -555,6 +571,13 @@ def gen_random_streams(r, n):
                     hs.append((b"content-length", r.choice([b"0", b"3", b"5", b"+3", b"x"])))
                 case.append(f"h3v.hdr {fmt_headers(hs)} {fin}")
                 kind = "trl"
+            elif x < 0.36:
+                hs = list(GOOD_PREFIX[kind]) + [(b"content-length", r.choice([b"0", b"3", b"5"]))] if r.random() < 0.6 else rand_list(r, kind)
+                hs = [h for h in hs if h[0]] or [(b"x", b"y")]
+                case.append(f"h3v.{r.choice(['hdrb', 'hdrb', 'ppb'])} {fmt_headers(hs if r.random() < 0.8 else REQ)} {fin}")
+                kind = "trl"
+            elif x < 0.42:
+                case.append("h3v.unblock")
             elif x < 0.6:
                 tot = r.choice([0, 1, 2, 3, 5, 8])
                 pres = r.choice([tot, tot, r.randrange(tot + 1)])
@@ -572,6 +595,117 @@ def gen_random_streams(r, n):
                 kind = "trl"
         cases.append(case)
     return cases
+
+
+def gen_blocked_streams(thorough):
+    """messages whose HEADERS / trailers / PUSH_PROMISE are QPACK-blocked when they (and the
+    FIN) arrive and are resumed by the late encoder stream, x declared / delivered lengths"""
+    cases = []
+    vals = [0, 3, 5] if not thorough else [0, 1, 3, 5, 10]
+    T = fmt_headers([(b"x-t", b"1")])
+    PP = fmt_headers(REQ)
+    for (c, p, base) in ((0, 0, REQ), (1, 0, RESP), (1, 1, RESP)):
+        new = f"h3v.new {c} {p}"
+        for decl in [None] + vals:
+            first = base + ([(b"content-length", str(decl).encode())] if decl is not None else [])
+            H = fmt_headers(first)
+            # headers-only message, FIN with the blocked HEADERS or alone behind it
+            cases.append([new, f"h3v.hdrb {H} 1", "h3v.unblock"])
+            cases.append([new, f"h3v.hdrb {H} 0", "h3v.fin", "h3v.unblock"])
+            cases.append([new, f"h3v.hdrb {H} 0", "h3v.unblock", "h3v.fin"])
+            for body in vals:
+                a = body // 2
+                # blocked first HEADERS, body (+ trailers) buffered behind it
+                cases.append([new, f"h3v.hdrb {H} 0", f"h3v.data {body} {body} 1", "h3v.unblock"])
+                cases.append([new, f"h3v.hdrb {H} 0", f"h3v.data {a} {a} 0", f"h3v.data {body - a} {body - a} 0", "h3v.fin", "h3v.unblock"])
+                cases.append([new, f"h3v.hdrb {H} 0", f"h3v.data {body} {body} 0", f"h3v.hdr {T} 1", "h3v.unblock"])
+                cases.append([new, f"h3v.hdrb {H} 0", f"h3v.data {body} {body} 0", "h3v.other 33 1", "h3v.unblock"])
+                cases.append([new, f"h3v.hdrb {H} 0", f"h3v.data {body} {body} 0", "h3v.unblock", "h3v.fin"])
+                # HEADERS + DATA delivered, blocked trailers carry the FIN
+                cases.append([new, f"h3v.hdr {H} 0", f"h3v.data {body} {body} 0", f"h3v.hdrb {T} 1", "h3v.unblock"])
+                cases.append([new, f"h3v.hdrdata {H} {body} 0", f"h3v.hdrb {T} 0", "h3v.fin", "h3v.unblock"])
+                cases.append([new, f"h3v.hdr {H} 0", f"h3v.data {body} {a} 0", f"h3v.frag {body - a} 0",
+                              f"h3v.hdrb {fmt_headers([(b'content-length', str(body).encode())])} 1", "h3v.unblock"])
+                if c == 1 and p == 0:
+                    # blocked PUSH_PROMISE as last frame of a response
+                    cases.append([new, f"h3v.hdr {H} 0", f"h3v.data {body} {body} 0", f"h3v.ppb {PP} 1", "h3v.unblock"])
+                    cases.append([new, f"h3v.hdr {H} 0", f"h3v.ppb {PP} 0", f"h3v.data {body} {body} 1", "h3v.unblock"])
+    for bad in ([(b":status", b"200"), (b"A", b"1")], [(b"a", b"1"), (b":status", b"200")], [(b":status", b"200"), (b"a", b" x")]):
+        cases.append(["h3v.new 1 0", f"h3v.hdrb {fmt_headers(bad)} 0", "h3v.unblock"])
+        cases.append(["h3v.new 1 0", f"h3v.hdr {fmt_headers(RESP)} 0", f"h3v.hdrb {fmt_headers(bad)} 1", "h3v.unblock"])
+        cases.append(["h3v.new 1 0", f"h3v.hdrb {fmt_headers(RESP)} 0", f"h3v.hdr {fmt_headers(bad)} 1", "h3v.unblock"])
+    return cases
+
+
+def genuine_blocked(ctx, thorough):
+    """oracle only, no model: a real sender H3Connection whose pylsqpack encoder uses the
+    dynamic table (header lists repeated so that it inserts); the receiver gets the request
+    stream incl. FIN BEFORE the encoder stream.  Every stream_ended event must satisfy
+    declared content-length = body bytes, else the connection must be closed."""
+    from aioquic.h3.connection import H3Connection
+    from aioquic.h3.events import DataReceived, HeadersReceived
+    from aioquic.quic.events import StreamDataReceived
+    from harness.impl_h3validate import FakeQuic
+    n_blocked = 0
+    filler = (b"x-filler", b"a-long-value-which-goes-to-the-qpack-dynamic-table")
+    for client_sends in (True, False):
+        for decl in (0, 3, 5):
+            for body in (0, 3, 5):
+                for shape in ("headers-only", "trailers", "trailers-blocked-last"):
+                    if shape == "headers-only" and body:
+                        continue
+                    sq, rq = FakeQuic(client_sends), FakeQuic(not client_sends)
+                    sender, receiver = H3Connection(sq), H3Connection(rq)
+                    for sid, d, f in rq.sent:
+                        sender.handle_event(StreamDataReceived(stream_id=sid, data=d, end_stream=f))
+                    rq.sent.clear()
+                    for sid, d, f in sq.sent:      # the sender's control / QPACK streams
+                        receiver.handle_event(StreamDataReceived(stream_id=sid, data=d, end_stream=f))
+                    first = ([(b":method", b"POST"), (b":scheme", b"https"), (b":authority", b"x"), (b":path", b"/")]
+                             if client_sends else [(b":status", b"200")]) + [(b"content-length", str(decl).encode()), filler]
+                    trailers = [(b"x-trailer", b"another-long-value-for-the-qpack-dynamic-table")]
+                    # warm-up streams, delivered in order: ls-qpack inserts a field the second
+                    # time it sees it, so a field seen once is inserted (and referenced) by the
+                    # message under test; with two warm-ups the first HEADERS does not block
+                    for warm in ((0, 4) if shape == "trailers-blocked-last" else (0,)):
+                        sq.sent.clear()
+                        sender.send_headers(warm, [h for h in first if h[0] != b"content-length"], end_stream=(warm == 4))
+                        if warm == 0:
+                            sender.send_headers(warm, trailers, end_stream=True)
+                        for sid, d, f in sq.sent:
+                            receiver.handle_event(StreamDataReceived(stream_id=sid, data=d, end_stream=f))
+                    sq.sent.clear()
+                    sid0 = 8
+                    sender.send_headers(sid0, first, end_stream=(shape == "headers-only"))
+                    if shape != "headers-only":
+                        if body:
+                            sender.send_data(sid0, bytes(body), end_stream=False)
+                        sender.send_headers(sid0, trailers, end_stream=True)
+                    late = [x for x in sq.sent if x[0] != sid0]
+                    msg = [x for x in sq.sent if x[0] == sid0]
+                    events = []
+                    for sid, d, f in msg:
+                        events += receiver.handle_event(StreamDataReceived(stream_id=sid, data=d, end_stream=f))
+                    st = receiver._stream.get(sid0)
+                    n_blocked += bool(st is not None and st.blocked)
+                    for sid, d, f in late:
+                        events += receiver.handle_event(StreamDataReceived(stream_id=sid, data=d, end_stream=f))
+                    got = sum(len(e.data) for e in events if isinstance(e, DataReceived) and e.stream_id == sid0)
+                    ended = [e for e in events if getattr(e, "stream_ended", False) and e.stream_id == sid0]
+                    ctx.count(("genuine-blocked", client_sends, decl, body, shape), True)
+                    if ended and got != decl and rq.closed is None:
+                        ctx.witness(
+                            f"QPACK-blocked {shape} message (genuine pylsqpack encoder, request stream + FIN delivered before the encoder "
+                            f"stream): event with stream_ended=True after {got} body bytes but content-length {decl} declared, connection not closed",
+                            {"ops": ["(genuine encoder scenario, see checks/c15.py genuine_blocked)"], "client_sends": client_sends,
+                             "declared": decl, "body": body, "shape": shape,
+                             "deliveries": [(sid, d.hex(), f) for sid, d, f in msg + late]},
+                            {"oracle": "content-length", "rule": "mismatch"})
+                    if got == decl and (rq.closed is not None or not ended):
+                        ctx.witness(f"QPACK-blocked {shape} message with matching content-length {decl}: closed={rq.closed}, ended events={len(ended)}",
+                                    {"ops": [], "client_sends": client_sends, "declared": decl, "body": body, "shape": shape},
+                                    {"oracle": "stream-end", "rule": "blocked-good-message-lost"})
+    ctx.notes["genuine_encoder_messages_with_late_encoder_stream"] = n_blocked
 
 
 # ------------------------------------------------------------------ the check
@@ -697,6 +831,10 @@ def main(tier):
     run_stream_cases(ctx, "stream-small-lists", cases, H3ValidateImpl)
     cases = gen_late_pseudo_streams()
     run_stream_cases(ctx, "stream-late-pseudo", cases, H3ValidateImpl)
+    cases = gen_blocked_streams(thorough)
+    run_stream_cases(ctx, "stream-blocked", cases, H3ValidateImpl)
+    ctx.sample({"stream-blocked": cases[0]})
+    genuine_blocked(ctx, thorough)
 
     ctx.cov["rule"] = (
         "validators: all 256 bytes in names/values (alone, after a valid byte, inside each of the 4 kinds), all strings of <=3 boundary bytes, "
